@@ -64,13 +64,6 @@ theorem memInv_run {s : State} (h : MemInv s) (ops : List Op) : MemInv (run s op
   | nil => exact h
   | cons op ops ih => exact ih (memInv_apply h op)
 
-theorem fuzzyClass_mem {s : State} (h : MemInv s) (q : Key) :
-    fuzzyClass s q = (s.btree.any (fun e => e.1.1 != q && fuzzyMatch e.1.1 q) ||
-      s.grave.any (fun g => g.1 != q && fuzzyMatch g.1 q)) := by
-  have hf : ∀ {α : Type} (l : List α), l.any (fun _ => false) = false := by
-    intro α l; induction l <;> simp_all
-  simp [fuzzyClass, h.2.1, hf]
-
 end TrieBuf
 
 namespace MapSpec
